@@ -252,17 +252,20 @@ def _run_one(args):
     # ambient activity (xmc/ambient.py): before every fourth case every other public function of the package is called once with valid
     # arguments, before every sixteenth with out-of-domain arguments, in this same process
     swept = None
+    ncalls = 0
     if not getattr(mod, "NO_AMBIENT", False):
         try:
             from . import ambient
 
             if idx % 4 == 1:
-                ambient.sweep("valid")
+                ncalls = ambient.sweep("valid")
                 swept = "valid"
             if idx % 16 == 3:
-                ambient.sweep("junk")
+                ncalls = ambient.sweep("junk")
                 swept = "junk"
-        except Exception:  # noqa: BLE001
+        except (KeyboardInterrupt, SystemExit):
+            raise
+        except BaseException:  # noqa: BLE001  (incl. the sweep's own watchdog exception, should it surface late)
             pass
     try:
         r = mod.check_case(case)
@@ -284,6 +287,7 @@ def _run_one(args):
         r.extra = dict(r.extra or {})
         if swept:
             r.extra["ambient_sweep"] = swept
+            r.extra["ambient_calls"] = ncalls
         for v in r.viol:
             v.setdefault("context", {})
             v["context"].update({"logging_debug": debug_on, "ambient_sweep_before_case": swept})
@@ -340,15 +344,34 @@ def run_cases(mod, cases, procs=None, order=None, contiguous=False):
         res = [_run_one(j) for j in jobs]
     else:
         import multiprocessing as mp
+        from concurrent.futures import ProcessPoolExecutor
+        from concurrent.futures.process import BrokenProcessPool
 
         ctx = mp.get_context("fork")
-        with ctx.Pool(procs) as pool:
-            if contiguous:
-                chunk = max(1, -(-len(jobs) // (procs * 2)))
-                res = list(pool.map(_run_one, jobs, chunksize=chunk))
-            else:
-                chunk = 1 if len(jobs) <= 4000 else max(1, min(64, len(jobs) // (procs * 32)))
-                res = list(pool.imap_unordered(_run_one, jobs, chunksize=chunk))
+        if contiguous:
+            chunk = max(1, -(-len(jobs) // (procs * 2)))
+        else:
+            chunk = 1 if len(jobs) <= 4000 else max(1, min(64, len(jobs) // (procs * 32)))
+        res = []
+        try:
+            # (a worker process that dies - a hard crash inside the library - breaks the pool instead of leaving the run waiting for ever)
+            with ProcessPoolExecutor(max_workers=procs, mp_context=ctx) as ex:
+                for out in ex.map(_run_one, jobs, chunksize=chunk):
+                    res.append(out)
+        except BrokenProcessPool:
+            done = {r["idx"] for r in res}
+            for j in jobs:
+                if j[1] in done:
+                    continue
+                # one fresh process per remaining case, so that the case that kills its process is identified and reported
+                try:
+                    with ProcessPoolExecutor(max_workers=1, mp_context=ctx) as ex1:
+                        res.append(ex1.submit(_run_one, j).result())
+                except BrokenProcessPool:
+                    r = CaseResult()
+                    r.evals = 1
+                    r.violation("case%d:worker-died" % j[1], "the process running this case died (hard crash inside a library call)", None, "process exited abnormally")
+                    res.append({"idx": j[1], "evals": r.evals, "nontrivial": [], "viol": r.viol, "worst": {}, "states": 0, "transitions": 0, "traces": 0, "extra": {}})
     res.sort(key=lambda r: r["idx"])
     return res
 
@@ -553,6 +576,7 @@ def finish(prop, level, tier, seed, t0, cases, results, rule, assumptions, alpha
             "cases_preceded_by_valid_sweep_of_other_public_functions": sum(1 for r in results if (r.get("extra") or {}).get("ambient_sweep") == "valid"),
             "cases_preceded_by_junk_argument_sweep": sum(1 for r in results if (r.get("extra") or {}).get("ambient_sweep") == "junk"),
             "bystander_functions": len(d["bystander_functions"]), "calls_per_valid_sweep": d["bystander_calls_per_valid_sweep"],
+            "bystander_calls_made": sum(int((r.get("extra") or {}).get("ambient_calls", 0)) for r in results),
             "functions_not_synthesised": d["not_synthesised"],
             "logging": "cases with an odd number of 1-bits in their index run with xfab's loggers at DEBUG (sink), the others with logging disabled; flipped in the second schedule",
         }
